@@ -217,15 +217,17 @@ class FortranAST:
 
     def get_object(self, FQSN: str):
         def find_child_by_name(parent, name):
+            # Fortran names are case-insensitive (`public :: FOO` / `integer :: foo`)
+            name = name.lower()
             for child in parent.children:
-                if child.name == name:
+                if child.name.lower() == name:
                     return child
                 if child.name.startswith("#GEN_INT"):
                     found = next(
                         (
                             int_child
                             for int_child in child.get_children()
-                            if int_child.name == name
+                            if int_child.name.lower() == name
                         ),
                         None,
                     )
